@@ -176,7 +176,8 @@ def comments_of(data: bytes):
     """Comment tokens exactly as manager._parse_file collects them (partial on TokenError)."""
     out = []
     try:
-        for tt, tv, (ln, _), _, _ in tokenize.tokenize(io.BytesIO(data).readline):
+        # newline-normalised like the bytes manager._parse_file hands to tokenize since /repo 1cb0176 (a lone CR is a line end for the parser)
+        for tt, tv, (ln, _), _, _ in tokenize.tokenize(io.BytesIO(data.replace(b"\r\n", b"\n").replace(b"\r", b"\n")).readline):
             if tt == tokenize.COMMENT:
                 out.append([ln, tv])
     except tokenize.TokenError:
